@@ -511,6 +511,12 @@ def run(ctx):
     check_sparse(ctx)
     check_expectation(ctx)
     check_terms_not_merged_by_key(ctx)
+    from ..lints import identity_padding_on_the_left
+
+    _hits = identity_padding_on_the_left(ctx.repo, ("operators._utils", "api.wavefunction_simulator", "operators._openfermion_utils.sparse_tools", "operators._pauli_operators"))
+    for _fi, _c in _hits:
+        ctx.violation(R4, f"{_fi.key}:identity-padding:{short(_c, 40)}", f"{_fi.qualname}: `{short(_c, 90)}` widens a matrix by an identity factor on the left: qubit 0 is the leftmost Kronecker factor, so the added (higher-numbered, idle) qubits belong on the right; as written the operator acts on the last qubits of the register instead of the ones it names", f"{_fi.module.relpath}:{_c.lineno}")
+    ctx.ok(R4, "artefacts:identity-padding", f"no matrix is widened by an identity factor on the left ({len(_hits)} found)", "")
     check_pauli_expansion(ctx)
     # the conversions are functions of their operands' current value: no memo on the operand, no module-level cache
     from ..state import check_hidden_state
